@@ -48,12 +48,13 @@ impl Pattern {
     }
     /// working set: what one round can legitimately need at once
     pub fn w(&self) -> usize {
-        let mx = self.rounds.iter().map(|r| r.m as usize + r.reserve as usize).max().unwrap_or(0);
+        let mx = self.rounds.iter().map(|r| r.m as usize + if r.reserve == u32::MAX { 0 } else { r.reserve as usize }).max().unwrap_or(0);
         (self.init_cap as usize).max(self.lmax as usize + mx).max(64)
     }
 }
 
-pub const APP_NAMES: [&str; 6] = ["put_slice", "extend_from_slice", "put_bytes", "resize", "extend(iter)", "reserve+chunk_mut+advance_mut"];
+pub const APP_NAMES: [&str; 10] = ["put_slice", "extend_from_slice", "put_bytes", "resize", "extend(iter)", "reserve+chunk_mut+advance_mut", "extend(iter with size_hint lower bound 0)", "extend(iter of &u8)", "put(&[u8] as Buf)", "put(chain of two slices)"];
+const NAPP: u8 = 10;
 pub const CONS_NAMES: [&str; 8] = ["split()", "split_to(f)", "advance(f)", "clear()", "split_off(f) keeping the tail", "Buf::copy_to_bytes(f)", "Buf::copy_to_bytes(remaining())", "(&mut buf).take(f).copy_to_bytes(f)"];
 pub const FATE_NAMES: [&str; 8] = ["drop", "freeze, drop", "keep k rounds", "freeze, clone, keep clone k rounds", "unsplit back, then advance", "Vec::from(part), drop", "Vec::from(part.freeze()), drop", "the emptied remainder takes the part back: buf.unsplit(part); buf.clear()"];
 
@@ -90,7 +91,7 @@ pub fn run_pattern(p: &Pattern, n: u64) -> RunRes {
     res.bound_allocs = (2.0 * ((8 * w) as f64).log2()).ceil() as u64 + 8;
     let mut shapes = HashSet::new();
     for r in &p.rounds {
-        shapes.insert((r.app_m % 6, r.cons_m % 8, r.fate % 8, r.reserve > 0));
+        shapes.insert((r.app_m % NAPP, r.cons_m % 8, r.fate % 8, r.reserve > 0));
     }
     res.shapes = shapes.len();
     oalloc::set_quarantine(false);
@@ -132,7 +133,8 @@ pub fn run_pattern(p: &Pattern, n: u64) -> RunRes {
         }
         // sole-owner facts before any reserve of this round
         let m = (r.m as usize).min(1 << 16);
-        let req = if r.reserve > 0 { r.reserve as usize } else { m };
+        // reserve: 0 = exactly what is appended, u32::MAX = no explicit reserve at all (the append has to make room itself)
+        let req = if r.reserve == u32::MAX { 0 } else if r.reserve > 0 { r.reserve as usize } else { m };
         let sole_block = {
             let pa = buf.as_ptr() as usize;
             match oalloc::block_of(pa) {
@@ -187,7 +189,7 @@ pub fn run_pattern(p: &Pattern, n: u64) -> RunRes {
         }
         // append
         let data = &src[..m];
-        let (ar, ad) = match r.app_m % 6 {
+        let (ar, ad) = match r.app_m % NAPP {
             0 => call(|| buf.put_slice(data)),
             1 => call(|| buf.extend_from_slice(data)),
             2 => call(|| buf.put_bytes(0x5a, m)),
@@ -196,6 +198,10 @@ pub fn run_pattern(p: &Pattern, n: u64) -> RunRes {
                 call(|| buf.resize(nl, 0x33))
             }
             4 => call(|| buf.extend(data.iter().copied())),
+            6 => call(|| buf.extend(data.iter().copied().filter(|_| true))),
+            7 => call(|| buf.extend(data.iter())),
+            8 => call(|| buf.put(data)),
+            9 => call(|| buf.put((&data[..m / 2]).chain(&data[m / 2..]))),
             _ => call(|| {
                 let mut left = data;
                 while !left.is_empty() {
@@ -209,7 +215,7 @@ pub fn run_pattern(p: &Pattern, n: u64) -> RunRes {
         };
         buf_allocs += ad.byte_allocs;
         if ar.is_err() {
-            fail(&mut res, "append-panicked", format!("round {}: {} of {} bytes", i, APP_NAMES[(r.app_m % 6) as usize], m));
+            fail(&mut res, "append-panicked", format!("round {}: {} of {} bytes", i, APP_NAMES[(r.app_m % NAPP) as usize], m));
             break;
         }
         // consume
@@ -396,8 +402,8 @@ pub fn run_pattern(p: &Pattern, n: u64) -> RunRes {
 
 fn round_strategy() -> BoxedStrategy<Round> {
     let m = prop_oneof![4 => 1u32..=64, 3 => 65u32..=1500, 1 => Just(4096u32), 1 => Just(0u32), 1 => Just(1024u32)];
-    let reserve = prop_oneof![5 => Just(0u32), 2 => 1u32..=4096, 1 => Just(65536u32), 1 => Just(128u32)];
-    (reserve, 0u8..6, m, 0u8..8, 0u8..=16, 0u8..8).prop_map(|(reserve, app_m, m, cons_m, frac, fate)| Round { reserve, app_m, m, cons_m, frac, fate }).boxed()
+    let reserve = prop_oneof![4 => Just(0u32), 2 => 1u32..=4096, 1 => Just(65536u32), 1 => Just(128u32), 3 => Just(u32::MAX)];
+    (reserve, 0u8..NAPP, m, 0u8..8, 0u8..=16, 0u8..8).prop_map(|(reserve, app_m, m, cons_m, frac, fate)| Round { reserve, app_m, m, cons_m, frac, fate }).boxed()
 }
 pub fn pattern_strategy(max_period: usize) -> BoxedStrategy<Pattern> {
     let caps = prop_oneof![2 => Just(0u32), 2 => 1u32..=128, 2 => Just(1024u32), 1 => Just(4096u32), 1 => Just(65536u32), 1 => Just(65535u32), 1 => 129u32..=9000];
@@ -453,7 +459,7 @@ pub fn main_recycle(args: &Args) -> i32 {
                             1 => &[1500, 1200],
                             _ => &[10, 1000, 33, 700],
                         };
-                        let rounds: Vec<Round> = ms.iter().enumerate().map(|(j, &m)| Round { reserve: 0, app_m: (j % 6) as u8, m, cons_m, frac: if lmax == 0 { 16 } else { 13 }, fate }).collect();
+                        let rounds: Vec<Round> = ms.iter().enumerate().map(|(j, &m)| Round { reserve: 0, app_m: (j % 6) as u8 + if prof == 2 { 4 } else { 0 }, m, cons_m, frac: if lmax == 0 { 16 } else { 13 }, fate }).collect();
                         let p = Pattern { init_cap, rounds, k, lmax, relabel_every: 0 };
                         util::set_current_case(&p.to_json(n).to_string());
                         let r = run_pattern(&p, n);
@@ -462,6 +468,33 @@ pub fn main_recycle(args: &Args) -> i32 {
                         if r.viol.is_some() {
                             record(&p, n, &r, "enumerated idiom", &mut viols);
                             break 'idioms;
+                        }
+                    }
+                }
+            }
+        }
+    }
+    // ---- the same with ONE way of appending throughout (the refill goes through different code for each of them)
+    if viols.is_empty() {
+        'apps: for app_m in 0u8..NAPP {
+            for cons_m in 0u8..8 {
+                for fate in [0u8, 3, 7] {
+                    for (k, lmax) in [(0u8, 0u32), (0, 40), (2, 0)] {
+                        for (init_cap, reserve) in [(0u32, u32::MAX), (4096, u32::MAX), (64, 0)] {
+                            idx += 1;
+                            if idx % workers != worker % workers {
+                                continue;
+                            }
+                            let rounds: Vec<Round> = [96u32, 700].iter().map(|&m| Round { reserve, app_m, m, cons_m, frac: if lmax == 0 { 16 } else { 13 }, fate }).collect();
+                            let p = Pattern { init_cap, rounds, k, lmax, relabel_every: 0 };
+                            util::set_current_case(&p.to_json(n).to_string());
+                            let r = run_pattern(&p, n);
+                            idiom_evals += 1;
+                            idiom_rounds += r.rounds_run;
+                            if r.viol.is_some() {
+                                record(&p, n, &r, "enumerated idiom (one append method)", &mut viols);
+                                break 'apps;
+                            }
                         }
                     }
                 }
